@@ -568,7 +568,7 @@ META = {
     "explanation": "Exactly-once percent-decoding as a counter on the def-use chain from Uri::path() to the S3Path parsers plus a who-may-call "
                    "ban inside them; the IP guard as a dominance + helper-shape fact; sibling agreement of the two parsers (constructions "
                    "dominated by the validators applied to the same values); the key bound as a normalised interval; MultiDomain's refusal "
-                   "conditions; the bucket-naming predicate decomposed into atoms whose byte classes are evaluated over all 256 bytes. Also: the bucket and key stored in S3Path are cut from the front of the URI path with no character-dropping operation on the way (verbatim key); CopySource validates the very values it stores.",
+                   "conditions; the bucket-naming predicate decomposed into atoms whose byte classes are evaluated over all 256 bytes. Also: the bucket and key stored in S3Path are cut from the front of the URI path with no character-dropping operation on the way (verbatim key); CopySource validates the very values it stores. Round 4: the query reaches OrderedQs::parse undecoded (decoded once, by the parser); a request is refused as too long only by check_key's verdict on the decoded key.",
     "not_decided": ["host/domain resolution predicates (is_valid_domain, suffix matching) as string semantics", "semantics of IpAddr parsing"],
     "assumptions": ["rustc nightly MIR construction", "S3 bucket naming rules page (core / complete lists in the rule module)"],
 }
